@@ -110,12 +110,15 @@ func (mp MultiPolygon) Len() int {
 func (mp MultiPolygon) Points() func() Point {
 	var i, j, k int
 	return func() Point {
-		if i == len(mp[k][j]) {
-			j++
-			i = 0
+		for {
 			if j == len(mp[k]) {
 				k++
 				j = 0
+			} else if i == len(mp[k][j]) {
+				j++
+				i = 0
+			} else {
+				break
 			}
 		}
 		i++
